@@ -399,8 +399,9 @@ fn mutated_case(g: G) -> BoxedStrategy<DocCase> {
 }
 
 pub fn property() -> Property {
-    let g = G::default().depth(3);
-    let g2 = G::default();
+    // ids and anchor names on random elements: markers must never cost text
+    let g = G::default().depth(3).with_ids();
+    let g2 = G::default().with_ids();
     Property {
         id: "C03",
         level: "exploration",
